@@ -16,7 +16,7 @@ import (
 type gnode struct {
 	Src    ast.Node // the library node this image was made from
 	GoType string   // concrete Go type, e.g. "*ast.Field"
-	Kind   string // the node's Kind field
+	Kind   string   // the node's Kind field
 	Loc    *ast.Location
 	Attrs  []gattr // scalar fields in declaration order
 	Kids   []gkid  // node-valued and slice-valued fields in grammar order
